@@ -244,6 +244,24 @@ func (t *w1Transport) RoundTrip(req *http.Request) (*http.Response, error) {
 		record(fate, true)
 		return okResp(), nil
 	}
+	if w.cfg.chLatency {
+		// not a fault: an insert takes a little time (1-50 ms and a sub-millisecond part that keeps its end
+		// off every grid), during which the inserter holds the buckets it took
+		lat := time.Duration(1+w.c.Keyed(50, w1SaltCHAmt+1000, uint64(idx), uint64(gen), uint64(sec), uint64(seq)))*time.Millisecond +
+			time.Duration(2*(1+w.c.Keyed(400000, w1SaltCHAmt+2000, uint64(idx), uint64(gen), uint64(sec), uint64(seq))))
+		select {
+		case <-req.Context().Done():
+			record(w1FateCancelled, false)
+			return nil, req.Context().Err()
+		case <-time.After(lat):
+		}
+		w.mu.Lock()
+		alive := w.reps[idx].gen == gen && w.reps[idx].up
+		w.mu.Unlock()
+		if !alive {
+			return nil, errors.New("w1 fake clickhouse: this aggregator process does not exist any more")
+		}
+	}
 	record(w1FateStored, true)
 	return okResp(), nil
 }
